@@ -1,8 +1,10 @@
 package main
 
 // The scripted in-process loopback collector: one net/http server (three OTLP/HTTP paths) and one
-// gRPC server implementing the three collector services. A scenario is identified by the
-// `x-verif-sc` header / metadata entry of its exporter; its script says what to serve for attempt n.
+// gRPC server implementing the three collector services. Every scenario gets its OWN loopback listener
+// (served by the shared server), so it is identified by the local port of the connection and needs no
+// header of its own: the configured headers (none / one / several) are part of what is verified.
+// Its script says what to serve for attempt n.
 // The collector logs Attempt{n, arrival, sha256(body)} and Resp{n, what is served, time just before
 // the response is handed to the transport} into the scenario's recorder.
 
@@ -29,6 +31,8 @@ import (
 	"google.golang.org/grpc/codes"
 	_ "google.golang.org/grpc/encoding/gzip"
 	"google.golang.org/grpc/metadata"
+	"google.golang.org/grpc/peer"
+	"google.golang.org/grpc/stats"
 	"google.golang.org/grpc/status"
 	"google.golang.org/protobuf/proto"
 	"google.golang.org/protobuf/types/known/durationpb"
@@ -52,6 +56,18 @@ type registry struct {
 	byID  map[string]*scenarioRun
 	stray int64 // requests for unknown / finished scenarios
 	base  time.Time
+}
+
+// portOf extracts the port of a listener / connection address.
+func portOf(a net.Addr) string {
+	if a == nil {
+		return ""
+	}
+	_, p, err := net.SplitHostPort(a.String())
+	if err != nil {
+		return ""
+	}
+	return p
 }
 
 func (r *registry) get(id string) *scenarioRun {
@@ -96,18 +112,31 @@ type httpCollector struct {
 }
 
 func startHTTP(reg *registry) (*httpCollector, error) {
-	ln, err := net.Listen("tcp", "127.0.0.1:0")
-	if err != nil {
-		return nil, err
-	}
-	c := &httpCollector{reg: reg, addr: ln.Addr().String()}
+	c := &httpCollector{reg: reg}
 	mux := http.NewServeMux()
 	mux.HandleFunc("/v1/traces", func(w http.ResponseWriter, r *http.Request) { c.handle(w, r, "traces") })
 	mux.HandleFunc("/v1/metrics", func(w http.ResponseWriter, r *http.Request) { c.handle(w, r, "metrics") })
 	mux.HandleFunc("/v1/logs", func(w http.ResponseWriter, r *http.Request) { c.handle(w, r, "logs") })
 	c.srv = &http.Server{Handler: mux}
-	go c.srv.Serve(ln)
+	// fail early if loopback listening does not work at all
+	ln, err := net.Listen("tcp", "127.0.0.1:0")
+	if err != nil {
+		return nil, err
+	}
+	ln.Close()
 	return c, nil
+}
+
+// listen opens the scenario's own listener and serves it with the shared server.
+func (c *httpCollector) listen(s *scenarioRun) (string, func(), error) {
+	ln, err := net.Listen("tcp", "127.0.0.1:0")
+	if err != nil {
+		return "", nil, err
+	}
+	port := portOf(ln.Addr())
+	c.reg.put(port, s)
+	go c.srv.Serve(ln)
+	return ln.Addr().String(), func() { ln.Close(); c.reg.del(port) }, nil
 }
 
 func partialBody(signal string, msg string) []byte {
@@ -139,8 +168,8 @@ func emptyBody(signal string) []byte {
 }
 
 func (c *httpCollector) handle(w http.ResponseWriter, r *http.Request, signal string) {
-	id := r.Header.Get("x-verif-sc")
-	s := c.reg.get(id)
+	la, _ := r.Context().Value(http.LocalAddrContextKey).(net.Addr)
+	s := c.reg.get(portOf(la))
 	raw, rerr := io.ReadAll(r.Body)
 	if s == nil {
 		atomic.AddInt64(&c.reg.stray, 1)
@@ -158,7 +187,17 @@ func (c *httpCollector) handle(w http.ResponseWriter, r *http.Request, signal st
 			}
 		}
 	}
-	n, it := s.arrive(hashOf(body), len(body))
+	enc := r.Header.Get("Content-Encoding")
+	if enc == "" {
+		enc = "none"
+	}
+	hdr := 0
+	for k, v := range s.hdr {
+		if r.Header.Get(k) == v {
+			hdr++
+		}
+	}
+	n, it := s.arrive(hashOf(body), len(body), hdr, enc)
 	switch it.Kind {
 	case "hold":
 		// the request is held while the scripted Cancel / Shutdown is issued; a client that abandons it is
@@ -171,16 +210,20 @@ func (c *httpCollector) handle(w http.ResponseWriter, r *http.Request, signal st
 		case <-time.After(s.release(it.Stop)):
 			it = Item{Kind: "status", Code: http.StatusOK}
 		}
-	case "tmpnet":
-		// no response within the client's per-attempt timeout: the client sees a temporary network error
+	case "tmpnet", "hung":
+		// the collector never answers: the client's per-attempt timeout must end the attempt (temporary network
+		// error). Gone = the moment the collector saw the client abandon the request.
 		s.resp(n, it)
 		select {
 		case <-r.Context().Done():
-		case <-time.After(s.holdCap):
-			s.note("tmpnet cap reached")
+			s.emit("Gone", true, map[string]any{"n": n})
+			s.after(n, it) // the client has given up on this attempt and is now waiting before the next one
+			return
+		case <-time.After(s.hungCap()):
+			s.emit("Gone", true, map[string]any{"n": n})
+			s.note("the client never abandoned the unanswered request")
+			it = Item{Kind: "status", Code: http.StatusOK}
 		}
-		s.after(n, it) // the client has given up on this attempt and is now waiting before the next one
-		return
 	case "close":
 		s.resp(n, it)
 		if hj, ok := w.(http.Hijacker); ok {
@@ -242,27 +285,59 @@ type logSvc struct {
 	c *grpcCollector
 }
 
+type rpcInfoKey struct{}
+type rpcInfo struct{ compression string }
+
+// encWatch records the compression the client announced for an RPC (grpc-encoding is not exposed as metadata).
+type encWatch struct{}
+
+func (encWatch) TagRPC(ctx context.Context, _ *stats.RPCTagInfo) context.Context {
+	return context.WithValue(ctx, rpcInfoKey{}, &rpcInfo{})
+}
+
+func (encWatch) HandleRPC(ctx context.Context, st stats.RPCStats) {
+	if h, ok := st.(*stats.InHeader); ok {
+		if ri, ok := ctx.Value(rpcInfoKey{}).(*rpcInfo); ok {
+			ri.compression = h.Compression
+		}
+	}
+}
+func (encWatch) TagConn(ctx context.Context, _ *stats.ConnTagInfo) context.Context { return ctx }
+func (encWatch) HandleConn(context.Context, stats.ConnStats)                       {}
+
 func startGRPC(reg *registry) (*grpcCollector, error) {
+	c := &grpcCollector{reg: reg, srv: grpc.NewServer(grpc.StatsHandler(encWatch{}))}
+	coltracepb.RegisterTraceServiceServer(c.srv, &traceSvc{c: c})
+	colmetricpb.RegisterMetricsServiceServer(c.srv, &metricSvc{c: c})
+	collogpb.RegisterLogsServiceServer(c.srv, &logSvc{c: c})
 	ln, err := net.Listen("tcp", "127.0.0.1:0")
 	if err != nil {
 		return nil, err
 	}
-	c := &grpcCollector{reg: reg, addr: ln.Addr().String(), srv: grpc.NewServer()}
-	coltracepb.RegisterTraceServiceServer(c.srv, &traceSvc{c: c})
-	colmetricpb.RegisterMetricsServiceServer(c.srv, &metricSvc{c: c})
-	collogpb.RegisterLogsServiceServer(c.srv, &logSvc{c: c})
+	c.addr = ln.Addr().String()
 	go c.srv.Serve(ln)
 	return c, nil
+}
+
+func (c *grpcCollector) listen(s *scenarioRun) (string, func(), error) {
+	ln, err := net.Listen("tcp", "127.0.0.1:0")
+	if err != nil {
+		return "", nil, err
+	}
+	port := portOf(ln.Addr())
+	c.reg.put(port, s)
+	go c.srv.Serve(ln)
+	return ln.Addr().String(), func() { ln.Close(); c.reg.del(port) }, nil
 }
 
 // serve returns (partial marker or "", error) for one RPC.
 func (c *grpcCollector) serve(ctx context.Context, req proto.Message) (string, error) {
 	md, _ := metadata.FromIncomingContext(ctx)
-	id := ""
-	if v := md.Get("x-verif-sc"); len(v) > 0 {
-		id = v[0]
+	var la net.Addr
+	if p, ok := peer.FromContext(ctx); ok {
+		la = p.LocalAddr
 	}
-	s := c.reg.get(id)
+	s := c.reg.get(portOf(la))
 	if s == nil {
 		atomic.AddInt64(&c.reg.stray, 1)
 		return "", status.Error(codes.Unknown, "unknown scenario")
@@ -271,9 +346,32 @@ func (c *grpcCollector) serve(ctx context.Context, req proto.Message) (string, e
 	if err != nil {
 		s.note("marshal: " + err.Error())
 	}
-	n, it := s.arrive(hashOf(b), len(b))
+	enc := "none"
+	if ri, ok := ctx.Value(rpcInfoKey{}).(*rpcInfo); ok && ri.compression != "" {
+		enc = ri.compression
+	}
+	hdr := 0
+	for k, v := range s.hdr {
+		if got := md.Get(k); len(got) == 1 && got[0] == v {
+			hdr++
+		}
+	}
+	n, it := s.arrive(hashOf(b), len(b), hdr, enc)
 	switch it.Kind {
-	case "hold", "tmpnet", "close":
+	case "hung", "tmpnet":
+		// never answered: the export timeout (whole call for gRPC) must end it
+		s.resp(n, Item{Kind: "hung"})
+		select {
+		case <-ctx.Done():
+			s.emit("Gone", true, map[string]any{"n": n})
+			s.after(n, it)
+			return "", status.Error(codes.Unavailable, "hung")
+		case <-time.After(s.hungCap()):
+			s.emit("Gone", true, map[string]any{"n": n})
+			s.note("the client never abandoned the unanswered request")
+			it = Item{Kind: "status", Code: 0}
+		}
+	case "hold", "close":
 		s.stop(it.Stop, n)
 		select {
 		case <-ctx.Done():
